@@ -427,6 +427,38 @@ func ruleConsumerReplaces(p *Program, r *Result) {
 			if f == nil || f.Blocks == nil || !isProviderSlice(resultType(f, 0)) {
 				continue
 			}
+			// a wrapper that hands on what the real builder returns (reload -> build): look at the builder
+			for d := 0; d < 3; d++ {
+				var inner *ssa.Function
+				wraps := true
+				for _, b := range f.Blocks {
+					ret, ok := b.Instrs[len(b.Instrs)-1].(*ssa.Return)
+					if !ok || b == f.Recover || len(ret.Results) == 0 {
+						continue
+					}
+					for _, rv := range returnedValues(f, ret, 0) {
+						var call *ssa.Call
+						if cc, ok := rv.(*ssa.Call); ok {
+							call = cc
+						} else if cc, _, ok := extractOf(rv); ok {
+							call = cc
+						}
+						g := (*ssa.Function)(nil)
+						if call != nil {
+							g = call.Common().StaticCallee()
+						}
+						if g == nil || g.Blocks == nil || !isProviderSlice(resultType(g, 0)) || (inner != nil && inner != g) {
+							wraps = false
+							continue
+						}
+						inner = g
+					}
+				}
+				if !wraps || inner == nil {
+					break
+				}
+				f = inner
+			}
 			fresh := false
 			for _, b := range f.Blocks {
 				for _, in := range b.Instrs {
